@@ -716,6 +716,7 @@ impl ArtefactMedium {
         "5affffffff", "5b000000ffffffffff", "5bffffffffffffffff", "7affffffff", "7bffffffffffffffff", "9affffffff", "9bffffffffffffffff", "baffffffff", "bbffffffffffffffff", "9f", "bf", "5f", // CBOR heads
         "5a10000000", "7a10000000", "9a10000000", "ba10000000", "9a02000000", "5a02000000", "9b0000000100000000", "991000", "59ffff", // moderately large CBOR counts (2^28, 2^22, 2^32, 4096, 65535)
         "fe00000010", "fe00000002", // compact-size 2^28, 2^25
+        "7f", "ff", "c2", "c3", "d9d9f7", "a1", "a0", "f6", "f7", "fb7ff0000000000000", "3bffffffffffffffff", "c249010000000000000000", // CBOR: indefinite text, break, bignum tags, self-describe tag, maps, null/undefined, +inf, most negative, 2^64 as a bignum
     ];
 }
 
@@ -800,6 +801,33 @@ fn apply_fault(data: &mut Vec<u8>, f: &Value) -> bool {
         "dup" => {
             let c = data.clone();
             data.extend(c);
+            true
+        }
+        "text_case" => {
+            // hex digits (and everything else) in upper or alternating case
+            let alt = ju64(f, "alt") == 1;
+            let mut changed = false;
+            for (i, b) in data.iter_mut().enumerate() {
+                if b.is_ascii_lowercase() && (!alt || i % 2 == 0) {
+                    *b = b.to_ascii_uppercase();
+                    changed = true;
+                }
+            }
+            changed
+        }
+        "text_ws" => {
+            // whitespace in front of, inside or behind the text
+            let p = jusize(f, "pos").min(data.len());
+            let ws = jhex(f, "ws");
+            data.splice(p..p, ws);
+            true
+        }
+        "lead_ones" => {
+            // base58 strings with extra leading '1' characters (each stands for a zero byte)
+            let k = jusize(f, "k").max(1);
+            let mut v = vec![b'1'; k];
+            v.extend(data.iter());
+            *data = v;
             true
         }
         "empty" => {
@@ -959,9 +987,15 @@ impl Scenario for ArtefactMedium {
             let json_kind = kind.starts_with("json_") || kind == "tx_json";
             let token_kind = matches!(kind, "script_asm" | "template_asm" | "template_match" | "xprv_path" | "xpub_path");
             let f = if json_kind && rng.chance(1, 2) {
-                json!({"f": "json_value", "k": rng.below(12), "with": *rng.pick(&["1", "-1", "0", "1e400", "18446744073709551616", "4294967296", "null", "true", "[]", "{}", "\"\"", "\"zz\"", "\"00\"", "\"aaaaaaaaaaaaaaaaaaaaaaaaaaaaaaaaaaaaaaaaaaaaaaaaaaaaaaaaaaaaaaa\"", "\"aaaaaaaaaaaaaaaaaaaaaaaaaaaaaaaaaaaaaaaaaaaaaaaaaaaaaaaaaaaaaaaaa\"", "\"0\"", "\"abc\"", "[1,2,3]", "{\"a\":1}", "1.5", "\"\u{e9}\u{20ac}\"", "\"0\u{e9}1\"", "\"\u{20ac}0\"", "\"z\u{e9}0\"", "\"00\u{e9}\"", "\"0\\u00e91\"", "99999999999999999999999999999999999999"])})
+                json!({"f": "json_value", "k": rng.below(12), "with": *rng.pick(&["1", "-1", "0", "1e400", "18446744073709551616", "4294967296", "null", "true", "[]", "{}", "\"\"", "\"zz\"", "\"00\"", "\"aaaaaaaaaaaaaaaaaaaaaaaaaaaaaaaaaaaaaaaaaaaaaaaaaaaaaaaaaaaaaaa\"", "\"aaaaaaaaaaaaaaaaaaaaaaaaaaaaaaaaaaaaaaaaaaaaaaaaaaaaaaaaaaaaaaaaa\"", "\"0\"", "\"abc\"", "[1,2,3]", "{\"a\":1}", "1.5", "\"\u{e9}\u{20ac}\"", "\"0\u{e9}1\"", "\"\u{20ac}0\"", "\"z\u{e9}0\"", "\"00\u{e9}\"", "\"0\\u00e91\"", "99999999999999999999999999999999999999", "1.0", "-0", "1E2", "1e-2", "0.5e1", "\"\\ud83d\\ude00\"", "\"\\ud800\"", "\"\\u0000\"", "\"\\n\"", "[[]]", "{\"value\":1,\"value\":2}", "18446744073709551615", "-9223372036854775809", "1.8446744073709552e19"])})
             } else if token_kind && rng.chance(1, 2) {
                 json!({"f": "token", "k": rng.below(16), "insert": rng.chance(1, 2), "with": *rng.pick(&["", "", "OP_PUSH", "OP_PUSHDATA1", "OP_PUSHDATA2", "OP_PUSHDATA4", "OP_PUSH 4294967295 00", "OP_PUSHDATA4 4294967296 00", "OP_PUSHDATA4 1073741824 00", "OP_PUSHDATA4 4294967295 00", "OP_PUSHDATA2 65535 00", "OP_PUSHDATA1 255 00", "OP_PUSH 75 00", "OP_PUSH 0 ", "OP_DATA20=", "OP_DATA==5", "OP_DATA=4294967296", "OP_DATA>=18446744073709551616", "OP_DATA<", "OP_DATA=", "OP_DATA=-1", "OP_DATA>", "0x", "zz", "é€", "a€", "OP_é", "17", "-1", "2147483648", "2147483647'", "4294967295", "4294967296", "2147483648h", "99999999999999999999", "'", "h", "/", "m", "m/", "0''", "OP_IF", "OP_ENDIF", "OP_ELSE", "\n", "\r", "\t"])})
+            } else if is_text_kind(kind) && rng.chance(1, 10) {
+                match rng.below(3) {
+                    0 => json!({"f": "text_case", "alt": rng.below(2), "level": "text"}),
+                    1 => json!({"f": "text_ws", "pos": *rng.pick(&[0u64, 0, 1, 2, 7, 8, 1 << 20]), "ws": *rng.pick(&["20", "0a", "09", "0d0a", "2020", "00", "c2a0", "e28088"]), "level": "text"}),
+                    _ => json!({"f": "lead_ones", "k": *rng.pick(&[1u64, 2, 8, 40]), "level": "text"}),
+                }
             } else if !offs.is_empty() && rng.chance(1, 8) {
                 if rng.chance(2, 3) {
                     json!({"f": "len_to_end", "pos": *rng.pick(&offs), "short": rng.below(5), "past": if rng.chance(1, 6) { rng.range(1, 3) } else { 0 }})
